@@ -276,15 +276,8 @@ func c04(p *Prog, r *Report) {
 			// the struct filled by the reads is the one returned
 			ok := len(succ) > 0
 			for _, rp := range succ {
-				ld, isLd := rp.Vals[0].(*ssa.UnOp)
-				if !isLd {
+				if !returnedIsFilled(p, s, rp, 0) {
 					ok = false
-					continue
-				}
-				for _, it := range p.ReadSequence(s, &rp) {
-					if fa, isFa := it.Call.Common().Args[1].(*ssa.FieldAddr); !isFa || fa.X != ld.X {
-						ok = false
-					}
 				}
 			}
 			r.Check(ok, R1, sp.name+": returned token is the struct the reads filled", p.Pos(fn.Pos()), "same object", "the token returned is not the object the fields were read into")
@@ -1556,4 +1549,50 @@ func c04SliceCursor(p *Prog, s *Sym, fn *ssa.Function, ph *ssa.Phi, u ssa.CallIn
 		return false, "the tag is not read from the front of the cursor"
 	}
 	return true, ""
+}
+
+// returnedIsFilled: the first result at rp is (a load of) the struct the
+// reads on that path filled; a decoder that forwards to a module helper is
+// judged in the helper.
+func returnedIsFilled(p *Prog, s *Sym, rp RetPoint, depth int) bool {
+	if len(rp.Vals) == 0 || depth > 3 {
+		return false
+	}
+	if ex, ok := rp.Vals[0].(*ssa.Extract); ok && ex.Index == 0 {
+		if c, ok := ex.Tuple.(*ssa.Call); ok {
+			if g := c.Call.StaticCallee(); g != nil && g.Blocks != nil && InModule(g) {
+				ch := s.child(g)
+				s.bindArgs(ch, g, c.Call.Args, c)
+				n := 0
+				for _, grp := range ch.ff.RetPoints(verdictIndex(g)) {
+					if grp.Outcome == Fails {
+						continue
+					}
+					n++
+					if !returnedIsFilled(p, ch, grp, depth+1) {
+						return false
+					}
+				}
+				return n > 0
+			}
+		}
+		return false
+	}
+	ld, isLd := rp.Vals[0].(*ssa.UnOp)
+	if !isLd {
+		return false
+	}
+	for _, it := range p.ReadSequence(s, &rp) {
+		call := it.Call
+		if it.Orig != nil {
+			return false // filled through a reader helper: not followed here
+		}
+		if len(call.Common().Args) < 2 {
+			continue
+		}
+		if fa, isFa := call.Common().Args[1].(*ssa.FieldAddr); !isFa || fa.X != ld.X {
+			return false
+		}
+	}
+	return true
 }
